@@ -107,6 +107,25 @@ def main(argv):
                             {"cmd": "oid_print " + h, "expected": want, "observed": o, "profile": prof}, key="oid-print")
             if not codec.same(ml, o, cd.emap):
                 dis += 1
+    # sub-identifiers around and beyond 2^32-1 coming from the agent: printed as what they are or refused, never as another OID
+    blines, bmeta = [], []
+    for v in [2 ** 32 - 2, 2 ** 32 - 1, 2 ** 32, 2 ** 32 + 1, 2 ** 33, 2 ** 35 + 7, 2 ** 40, 2 ** 63, 2 ** 64 - 1, 2 ** 64, 2 ** 64 + 5, 2 ** 70 + 1, 2 ** 127 + 3]:
+        for arcs in ([1, 3, v], [1, 3, 6, v, 1], [2, 39, 1, v], [1, 3, v, v]):
+            blines.append("oid_print " + gen.hx(ber.oid_content(arcs)))
+            bmeta.append(arcs)
+    bm, brl, bdb = cd.run(blines)
+    for ln, arcs, ml, rl, dl in zip(blines, bmeta, bm, brl, bdb):
+        c.count(ln, True)
+        for prof, o in (("release", rl), ("debug", dl)):
+            if not codec.same(ml, o, cd.emap):
+                dis += 1
+                if not any(b.startswith("correspondence") for b in c.broken):
+                    c.broken = list(c.broken) + ["correspondence `%s`: model `%s` impl(%s) `%s`" % (ln[:120], ml[:100], prof, o[:100])]
+            want = "OK " + gen.hx(ber.oid_text(arcs).encode())
+            if o == "PANIC" or (o.startswith("OK ") and o != want) or (max(arcs) < 2 ** 32 and o != want):
+                c.violation("an OID with the sub-identifier %d prints as %s, it denotes %s (%s build)"
+                            % (max(arcs), bytes.fromhex(o[3:]).decode() if o.startswith("OK ") else o, ber.oid_text(arcs), prof),
+                            {"cmd": ln, "expected": want + " or a refusal", "observed": o, "profile": prof}, key="oid-print-wide")
     # arbitrary content octets through the printer (never a panic), model = impl
     raw = ["oid_print " + gen.hx(gen.rbytes(rng, rng.randint(0, 9))) for _ in range(20000 if thorough else 4000)]
     dis += cd.diff(raw, label="oid_print", on_case=lambda k, ln, ml, rl, dl: (
@@ -131,6 +150,25 @@ def main(argv):
             steps.append({"op": "get", "args": [t], "replies": [[{"vbs": ""}]]})
             steps.append({"op": "getnext", "args": [t], "replies": [[{"vbs": ""}]], "cap": 2})
         scs.append({"version": ver, "mode": "sync", "timeout": 0.05, "steps": steps})
+    # every operation takes OID text: getbulk / fetch with one text, get_many with lists mixing valid and invalid texts at
+    # every position (one invalid text refuses the whole call), both clients
+    valid_t = [t for t in sample if reference(t) is not None and len(t) < 80]
+    invalid_t = [t for t in sample if reference(t) is None and len(t) < 80]
+    for ver, mode in (("v2c", "sync"), ("v2c", "async"), ("v1", "async")):
+        steps = []
+        for _ in range(120 if thorough else 40):
+            k = rng.choice([1, 2, 2, 3, 4])
+            lst = [rng.choice(valid_t) for _x in range(k)]
+            for _x in range(rng.choice([0, 1, 1, 2])):
+                lst[rng.randrange(k)] = rng.choice(invalid_t)
+            if rng.random() < 0.1:
+                lst = [rng.choice(invalid_t) for _x in range(k)]
+            steps.append({"op": "get_many", "args": [lst], "replies": [[{"vbs": ""}]]})
+        for t in rng.sample(sample, 40 if thorough else 16):
+            if ver != "v1":
+                steps.append({"op": "getbulk", "args": [t], "replies": [[{"vbs": ""}]], "cap": 2})
+            steps.append({"op": "fetch", "args": [t], "replies": [[{"vbs": ""}]], "cap": 2})
+        scs.append({"version": ver, "mode": mode, "timeout": 0.05, "steps": steps})
     res, log = vf.run_api_worker("C08", {"scenarios": scs})
     n_api = 0
     if res is None:
@@ -141,6 +179,23 @@ def main(argv):
                 c.errors.append("API driver error: " + rec["driver_error"])
                 continue
             for st, out in zip(sc["steps"], rec["steps"]):
+                if st["op"] == "get_many":
+                    lst = st["args"][0]
+                    refs = [reference(t) for t in lst]
+                    n_api += 1
+                    c.count(("api-get_many", sc["version"], sc["mode"], tuple(lst)), any(r is None for r in refs))
+                    sent = out["requests"]
+                    if (out.get("exc") or "").startswith("PANIC"):
+                        c.violation("get_many(%r) surfaced a Rust panic" % lst, {"op": "get_many", "texts": lst, "outcome": out}, key="api-oid-panic")
+                    elif any(r is None for r in refs):
+                        if sent or out["kind"] == "RET":
+                            c.violation("get_many(%r): text %d is not an OID, yet %s" % ([t[:30] for t in lst], [i for i, r in enumerate(refs) if r is None][0],
+                                        "a request naming %s went out" % [q.get("pdu", {}).get("oids") for q in sent][:1] if sent else "the call returned"),
+                                        {"op": "get_many", "texts": lst, "emitted": out["emitted"]}, key="api-invalid-sent")
+                    elif not sent or sent[0].get("pdu", {}).get("oids") != refs:
+                        c.violation("get_many(%r) sent %s, expected %s" % ([t[:30] for t in lst], [q.get("pdu", {}).get("oids") for q in sent][:1], refs),
+                                    {"op": "get_many", "texts": lst, "emitted": out["emitted"]}, key="api-wrong-oid")
+                    continue
                 t = st["args"][0]
                 ref = reference(t)
                 n_api += 1
